@@ -3,7 +3,7 @@
    Model: model/FuncAn.v (FunctionAnalyser; tied to /repo by the shared correspondence run of
    ./check C01|C02|C09|C17 on generated bodies).  Spec: spec/Occurs.v (`occs true body` = every access
    the body performs; `occs false body` = the same outside the positions of the listed finding classes). *)
-From RattrV Require Import Base Str PyAst Naming Spell Context FuncAn Occurs FaCheck FaSpecCheck FaFacts FaMono C01Proofs C01Complete C01Calls.
+From RattrV Require Import Base Str PyAst Naming Spell Context FuncAn Occurs FaCheck FaSpecCheck FaFacts FaMono C01Proofs C01Complete C01Calls C01Assign.
 Open Scope string_scope.
 Open Scope list_scope.
 
@@ -97,3 +97,22 @@ Example C01_calls_fragment_is_inhabited :
 Proof.
   split; [|split; [|reflexivity]]; repeat (constructor; simpl; try exact I; try reflexivity).
 Qed.
+
+(* ---------- a binding statement (proofs/C01Assign.v) ---------- *)
+(* `t = v` with one variable on the left and any expression of the fragment above on the right that is not itself a
+   call, a tuple / list display or a lambda: the statement ends normally, t is reported under sets and is visible
+   afterwards (the link to C17), every load and call of v is reported *)
+Theorem C01_simple_assignment_is_complete :
+  forall mexists modulename c t pt v p,
+    CFC v -> FuncAn.is_call v = false -> FuncAn.is_seq_tl v = false -> mem t ATTR_BUILTINS = false ->
+    NoCustom mexists modulename (ctx_add c (mkSym t KName) false) v ->
+    forall s, v_ctx s = c ->
+      let r := visit mexists modulename (SAssign [EName t Store pt] v p) s in
+      fst r = Ok tt
+      /\ v_ctx (snd r) = ctx_add c (mkSym t KName) false
+      /\ ctx_in (v_ctx (snd r)) t = true
+      /\ rmem (t, t) (v_sets (snd r)) = true
+      /\ (forall nm, In (AGet, nm) (occs false v) -> reported nm (snd r))
+      /\ (forall nm, In (ACall, nm) (occs false v) -> call_reported nm (snd r)).
+Proof. exact simple_assignment_is_complete. Qed.
+Print Assumptions C01_simple_assignment_is_complete.
